@@ -213,8 +213,10 @@ def _level(X):
     import pandas as pd
 
     if isinstance(X, pd.DataFrame):
-        # over ALL columns handed in, so that a wrong feature selection is visible
-        return np.array([float(np.mean([np.mean(np.asarray(X.iloc[i, j], dtype=float)) for j in range(X.shape[1])]))
+        # over ALL columns handed in, weighted by column position, so that a wrong feature
+        # selection or a wrong feature order is visible (one column: its plain mean)
+        w = np.array([1.0 + 0.5 * j for j in range(X.shape[1])])
+        return np.array([float(np.sum([w[j] * np.mean(np.asarray(X.iloc[i, j], dtype=float)) for j in range(X.shape[1])]) / w.sum())
                          for i in range(len(X))])
     X = np.asarray(X, dtype=float)
     return X.reshape(X.shape[0], -1).mean(axis=1)
